@@ -44,7 +44,7 @@ PROFILE = {"n_atoms": (2, 4), "n_pulses": (1, 2), "dur": (16, 80), "max_steps": 
 
 def plan(tier: str) -> dict:
     if tier == "quick":
-        return {"runs": 160, "wall_s": 150, "task_timeout": 300}
+        return {"runs": 120, "wall_s": 170, "task_timeout": 300}
     return {"runs": 2400, "wall_s": 1500, "task_timeout": 900}
 
 
